@@ -355,23 +355,28 @@ package dnssec
 //@ func signatureBinding
 //@   abstract
 //@   nosafety all pre
-//@   assert at return#7: result == nil && k != nil && sig != nil
-//@   assert at return#7: lastret("github.com/miekg/dns.IsRRset")
-//@   assert at return#7: calls("middleware/resolver/dnssec.KeyTag") == 1
-//@   assert at return#7: sig.Algorithm == k.Algorithm && sig.Hdr.Class == k.Hdr.Class
-//@   assert at return#7: eqFoldA(sig.SignerName, k.Hdr.Name) && eqFoldA(hdrOf(rrset[0]).Name, sig.Hdr.Name)
-//@   assert at return#7: hdrOf(rrset[0]).Class == sig.Hdr.Class && hdrOf(rrset[0]).Rrtype == sig.TypeCovered && countLabel(hdrOf(rrset[0]).Name) >= int(sig.Labels) && inZone(canon(hdrOf(rrset[0]).Name), canon(sig.SignerName))
+//@   assert at return#8: result == nil && k != nil && sig != nil
+//@   assert at return#8: lastret("github.com/miekg/dns.IsRRset")
+//@   assert at return#8: calls("middleware/resolver/dnssec.KeyTag") == 1
+//@   assert at return#8: sig.Algorithm == k.Algorithm && sig.Hdr.Class == k.Hdr.Class
+//@   assert at return#8: eqFoldA(sig.SignerName, k.Hdr.Name) && eqFoldA(hdrOf(rrset[0]).Name, sig.Hdr.Name)
+//@   assert at return#8: hdrOf(rrset[0]).Class == sig.Hdr.Class && hdrOf(rrset[0]).Rrtype == sig.TypeCovered && countLabel(hdrOf(rrset[0]).Name) >= int(sig.Labels) && inZone(canon(hdrOf(rrset[0]).Name), canon(sig.SignerName))
 //@   assert at call middleware/resolver/dnssec.KeyTag#1: arg0 == k && k.Protocol == 3 && k.Flags & 256 != 0 && lastret("github.com/miekg/dns.IsRRset")
 //@   assert at return#1: result != nil
 //@   assert at return#2: result != nil
 //@   assert at return#3: result != nil
-//@   assert at return#4: result != nil
 //@   assert at return#5: result != nil
 //@   assert at return#6: result != nil
+//@   assert at return#7: result != nil
 //@   # "only when those records prove it for that exact name": an NSEC or NSEC3 RRset is bound to a signature only under the
 //@   # owner name that was signed - never under a name a wildcard was expanded to (Labels smaller than the owner's count)
-//@   assert at return#7: (hdrOf(rrset[0]).Rrtype == dns.TypeNSEC || hdrOf(rrset[0]).Rrtype == dns.TypeNSEC3) ==> !lastret("middleware/resolver/dnssec.expandedFromWildcard")
+//@   assert at return#8: (hdrOf(rrset[0]).Rrtype == dns.TypeNSEC || hdrOf(rrset[0]).Rrtype == dns.TypeNSEC3) ==> !lastret("middleware/resolver/dnssec.expandedFromWildcard")
 //@   assert at call middleware/resolver/dnssec.expandedFromWildcard#1: arg0 == hdrOf(rrset[0]).Name && arg1 == sig.Labels
+//@   assert at return#4: result != nil
+//@   # C14 ("never more permissive than the reference"): the key's owner is a fully qualified name - the library qualifies
+//@   # the signer name before it compares, so it refuses a key owned by a relative name
+//@   assert at return#8: lastret("github.com/miekg/dns.IsFqdn")
+//@   assert at call github.com/miekg/dns.IsFqdn#1: arg0 == k.Hdr.Name
 //@
 //@ # an owner with more labels (root and a leading "*" not counted) than the RRSIG's Labels field was not the signed name
 //@ func expandedFromWildcard
